@@ -27,6 +27,8 @@ use std::pin::Pin;
 use std::ptr::NonNull;
 
 use crate::common;
+#[cfg(yarel_verif)]
+use crate::verif;
 
 thread_local! {
     static HEAP: RefCell<Heap> = RefCell::new(Heap::new());
@@ -43,6 +45,12 @@ pub trait GcManaged {
     fn mark(&self);
 
     fn blacken(&self);
+
+    /// Address range of memory owned by this object that other objects may point into.
+    #[cfg(yarel_verif)]
+    fn verif_dead_range(&self) -> Option<(usize, usize)> {
+        None
+    }
 }
 
 type GcBoxPtr<T> = NonNull<GcBox<T>>;
@@ -51,7 +59,22 @@ struct GcBox<T: GcManaged + ?Sized> {
     colour: Cell<Colour>,
     num_roots: Cell<usize>,
     _pin: PhantomPinned,
+    #[cfg(yarel_verif)]
+    freed: Cell<bool>,
+    #[cfg(yarel_verif)]
+    serial: usize,
+    #[cfg(yarel_verif)]
+    ty: &'static str,
     pub(crate) data: T,
+}
+
+#[cfg(yarel_verif)]
+impl<T: GcManaged + ?Sized> GcBox<T> {
+    fn verif_check(&self) {
+        if self.freed.get() {
+            verif::use_after_free(self.serial, self.ty);
+        }
+    }
 }
 
 impl<T: 'static + GcManaged + ?Sized> GcBox<T> {
@@ -122,6 +145,10 @@ impl<T: 'static + GcManaged + ?Sized> Root<T> {
 
 impl<T: GcManaged + ?Sized> Root<T> {
     fn gc_box(&self) -> &GcBox<T> {
+        #[cfg(yarel_verif)]
+        unsafe {
+            self.ptr.as_ref().verif_check();
+        }
         unsafe { self.ptr.as_ref() }
     }
 
@@ -218,6 +245,10 @@ impl<T: 'static + GcManaged + ?Sized> UniqueRoot<T> {
 
 impl<T: GcManaged + ?Sized> UniqueRoot<T> {
     fn gc_box(&self) -> &GcBox<T> {
+        #[cfg(yarel_verif)]
+        unsafe {
+            self.ptr.as_ref().verif_check();
+        }
         unsafe { self.ptr.as_ref() }
     }
 
@@ -286,6 +317,10 @@ impl<T: 'static + GcManaged> Gc<T> {
 
 impl<T: 'static + GcManaged + ?Sized> Gc<T> {
     fn gc_box(&self) -> &GcBox<T> {
+        #[cfg(yarel_verif)]
+        unsafe {
+            self.ptr.as_ref().verif_check();
+        }
         unsafe { self.ptr.as_ref() }
     }
 }
@@ -332,6 +367,10 @@ pub(crate) struct Heap {
     collection_threshold: usize,
     bytes_allocated: usize,
     objects: Vec<Pin<Box<GcBox<dyn GcManaged>>>>,
+    #[cfg(yarel_verif)]
+    quarantine: Vec<Pin<Box<GcBox<dyn GcManaged>>>>,
+    #[cfg(yarel_verif)]
+    verif_collections: usize,
 }
 
 impl Heap {
@@ -356,6 +395,17 @@ impl Heap {
     }
 
     fn allocate_raw<T: 'static + GcManaged>(&mut self, data: T) -> GcBoxPtr<T> {
+        #[cfg(yarel_verif)]
+        let (verif_index, verif_collections_before) = {
+            let collections_before = self.verif_collections;
+            let (n, force) = verif::next_alloc();
+            if force {
+                verif::set_forced(true);
+                self.collect();
+                verif::set_forced(false);
+            }
+            (n, collections_before)
+        };
         if cfg!(any(debug_assertions, feature = "debug_stress_gc")) {
             self.collect();
         } else {
@@ -365,6 +415,12 @@ impl Heap {
             colour: Cell::new(Colour::White),
             num_roots: Cell::new(0),
             _pin: PhantomPinned,
+            #[cfg(yarel_verif)]
+            freed: Cell::new(false),
+            #[cfg(yarel_verif)]
+            serial: verif_index,
+            #[cfg(yarel_verif)]
+            ty: any::type_name::<T>(),
             data,
         });
 
@@ -374,6 +430,22 @@ impl Heap {
         let size = mem::size_of::<T>();
 
         self.bytes_allocated += size;
+
+        #[cfg(yarel_verif)]
+        if verif::wants(verif::EV_ALLOC) {
+            verif::emit(
+                verif::EV_ALLOC,
+                format!(
+                    "{{\"e\":\"Alloc\",\"n\":{},\"size\":{},\"gc\":{},\"bytes\":{},\"thr\":{},\"ty\":{}}}",
+                    verif_index,
+                    size,
+                    self.verif_collections - verif_collections_before,
+                    self.bytes_allocated,
+                    self.collection_threshold,
+                    verif::json_str(any::type_name::<T>())
+                ),
+            );
+        }
 
         if cfg!(feature = "debug_trace_gc") {
             let new_ptr = self.objects.last().unwrap();
@@ -389,6 +461,10 @@ impl Heap {
     }
 
     fn collect(&mut self) {
+        #[cfg(yarel_verif)]
+        if verif::collect_suppressed() {
+            return;
+        }
         if cfg!(feature = "debug_trace_gc") {
             println!("-- gc begin")
         }
@@ -400,6 +476,22 @@ impl Heap {
         let prev_bytes_allocated = self.bytes_allocated;
         self.bytes_allocated -= bytes_freed;
         self.collection_threshold = self.bytes_allocated * common::HEAP_GROWTH_FACTOR;
+
+        #[cfg(yarel_verif)]
+        {
+            self.verif_collections += 1;
+            verif::emit(
+                verif::EV_HEAP,
+                format!(
+                    "{{\"e\":\"Collect\",\"before\":{},\"freed\":{},\"after\":{},\"thr\":{},\"objects\":{}}}",
+                    prev_bytes_allocated,
+                    bytes_freed,
+                    self.bytes_allocated,
+                    self.collection_threshold,
+                    self.objects.len()
+                ),
+            );
+        }
 
         if cfg!(feature = "debug_trace_gc") {
             println!("-- gc end (freed {} bytes)", bytes_freed);
@@ -455,6 +547,22 @@ impl Heap {
             })
             .sum();
 
+        #[cfg(yarel_verif)]
+        if verif::quarantine_enabled() {
+            let objects = mem::take(&mut self.objects);
+            for obj in objects {
+                if obj.colour.get() == Colour::Black {
+                    self.objects.push(obj);
+                } else {
+                    obj.freed.set(true);
+                    if let Some(range) = obj.data.verif_dead_range() {
+                        verif::add_dead_range(range);
+                    }
+                    self.quarantine.push(obj);
+                }
+            }
+        }
+
         self.objects.retain(|obj| obj.colour.get() == Colour::Black);
 
         bytes_marked
@@ -467,8 +575,63 @@ impl Default for Heap {
             collection_threshold: common::HEAP_INIT_BYTES_MAX,
             bytes_allocated: 0,
             objects: Vec::new(),
+            #[cfg(yarel_verif)]
+            quarantine: Vec::new(),
+            #[cfg(yarel_verif)]
+            verif_collections: 0,
         }
     }
+}
+
+#[cfg(yarel_verif)]
+#[derive(Clone, Debug, Default)]
+pub struct VerifHeapStats {
+    pub bytes_allocated: usize,
+    pub collection_threshold: usize,
+    pub objects: usize,
+    pub quarantined: usize,
+    pub collections: usize,
+    pub by_type: Vec<(String, usize)>,
+}
+
+#[cfg(yarel_verif)]
+pub fn verif_heap_stats() -> VerifHeapStats {
+    HEAP.with(|heap| {
+        let heap = heap.borrow();
+        let mut by_type: HashMap<&'static str, usize> = HashMap::new();
+        for obj in heap.objects.iter() {
+            *by_type.entry(obj.ty).or_insert(0) += 1;
+        }
+        let mut by_type: Vec<(String, usize)> =
+            by_type.into_iter().map(|(k, v)| (k.to_string(), v)).collect();
+        by_type.sort();
+        VerifHeapStats {
+            bytes_allocated: heap.bytes_allocated,
+            collection_threshold: heap.collection_threshold,
+            objects: heap.objects.len(),
+            quarantined: heap.quarantine.len(),
+            collections: heap.verif_collections,
+            by_type,
+        }
+    })
+}
+
+/// Run a full collection now, whatever the pacing policy says.
+#[cfg(yarel_verif)]
+pub fn verif_collect_now() {
+    HEAP.with(|heap| {
+        verif::set_forced(true);
+        heap.borrow_mut().collect();
+        verif::set_forced(false);
+    })
+}
+
+/// Drop every quarantined object.
+#[cfg(yarel_verif)]
+pub fn verif_purge_quarantine() {
+    let purged = HEAP.with(|heap| mem::take(&mut heap.borrow_mut().quarantine));
+    drop(purged);
+    verif::clear_dead_ranges();
 }
 
 impl<T: GcManaged> GcManaged for RefCell<T> {
@@ -478,6 +641,11 @@ impl<T: GcManaged> GcManaged for RefCell<T> {
 
     fn blacken(&self) {
         self.borrow().blacken();
+    }
+
+    #[cfg(yarel_verif)]
+    fn verif_dead_range(&self) -> Option<(usize, usize)> {
+        self.try_borrow().ok().and_then(|v| v.verif_dead_range())
     }
 }
 
